@@ -94,5 +94,8 @@ def run(ctx):
     return verif.finish(ctx, "exploration", cov,
                         ["Fn_IndexMap.tla (expected contents as a function of the operation list) is the oracle; TLC evaluates RecOK on every recorded sequence",
                          "bucket collisions cannot be steered (maphash seed is random per table): they come from volume (load factor 4) and from equal keys",
-                         "filler entries are judged through per-iteration counts (seen, distinct, corrupt) and a fixed sample of 16 filler keys per sequence, tracked keys entry by entry",
+                         "filler entries are judged through per-iteration counts (seen, distinct, corrupt) and a fixed sample of 16 filler keys per sequence, tracked keys entry by entry (lookup and iteration compared as bags of value codes with the bag of inserted codes)",
+                         "an entry is abstracted to its value code (pack number, offset number, length variant; 5 x 1024 x 8 codes, decoded from the stored pack/offset/length/uncompressed length, -1 if no such payload was ever handed in); the order in which lookup and iteration yield entries is left open (the driver sorts the codes)",
+                         "record encoding: a per-key observation equal to the previous one is written as [] and resolved by the spec (ResAll)",
+                         "index mode: entries stored by one StorePack call share the pack; the same pack ID stored by two calls is two packs for the table but one pack number for the oracle",
                          "64-bit platform (bloom filter active)"])
